@@ -14,15 +14,15 @@ import (
 )
 
 // BurstPart: "every time-bound object is processed exactly at its due height and exactly once" has no bound on how
-// many objects fall due together. A scripted history creates 120 plain contracts that all expire at one height,
+// many objects fall due together. A scripted history creates 260 plain contracts that all expire at one height,
 // claims two of them (one early, one in the last block before the expiry), walks to the expiration height and two
 // blocks beyond, and judges every block: refunds exactly in the begin-block of the expiration height, one event
 // each, escrow = open contracts, the queue-hygiene rules, no second payment for anybody.
 func BurstPart(mode string) mc.Part {
-	const n = 120
-	return mc.Part{Name: "expiry-burst-120", Run: func(tier string, known []mc.KnownFinding, dl time.Time) mc.PartReport {
+	const n = 260
+	return mc.Part{Name: "expiry-burst-260", Run: func(tier string, known []mc.KnownFinding, dl time.Time) mc.PartReport {
 		start := time.Now()
-		rep := mc.PartReport{Exhaustive: true, Rule: "scripted history: 120 contracts due at one height; every block judged"}
+		rep := mc.PartReport{Exhaustive: true, Rule: "scripted history: 260 contracts due at one height; every block judged"}
 		coins := sdk.NewCoins(mc.C("btc", 1_000_000), mc.C("stake", 1000))
 		e := mc.NewEnv(mc.EnvOptions{Balances: map[string]sdk.Coins{"A": coins, "B": sdk.NewCoins(mc.C("stake", 1000))}, BlockModules: []string{"htlc"}})
 		s := &mc.State{Ctx: mc.Branch(e.Root)}
@@ -83,6 +83,17 @@ func BurstPart(mode string) mc.Part {
 			if have := e.Bal(s.Ctx, esc, "btc").Int64(); have != open {
 				fs = append(fs, mc.F("C03/escrow-differs-from-open-contracts", "escrow holds %dbtc, open contracts sum to %dbtc", have, open))
 			}
+			// C04 speaks about the contracts the chain itself reports open
+			storedOpen := int64(0)
+			for _, c := range cs {
+				idb, _ := hex.DecodeString(c.id)
+				if h, found := e.HTLC.GetHTLC(s.Ctx, idb); found && h.State == htlctypes.Open {
+					storedOpen += c.amt
+				}
+			}
+			if have := e.Bal(s.Ctx, esc, "btc").Int64(); have != storedOpen {
+				fs = append(fs, mc.F("C04/escrow-differs-from-open-contracts", "escrow holds %dbtc, the contracts stored as open sum to %dbtc", have, storedOpen))
+			}
 			fs = sel(fs)
 			if mode == "C13" {
 				fs = append(fs, Hygiene(e, s)...)
@@ -111,7 +122,7 @@ func BurstPart(mode string) mc.Part {
 			cs = append(cs, &con{id: id, secret: secret, amt: int64(i + 1)})
 		}
 		expiry = s.Ctx.BlockHeight() + 50
-		judge("create x120")
+		judge("create x260")
 		claim := func(k int) {
 			c := cs[k]
 			o := s.Deliver(e, fmt.Sprintf("burst-claim-%d", k), &htlctypes.MsgClaimHTLC{Sender: mc.Addr("B").String(), Id: c.id, Secret: hex.EncodeToString(c.secret)})
@@ -158,11 +169,19 @@ func BurstPart(mode string) mc.Part {
 			block()
 		}
 		judge(fmt.Sprintf("blocks to height %d", expiry-1))
-		claim(110)
-		judge("claim #110 in the last block before the expiry")
+		claim(250)
+		judge("claim #250 in the last block before the expiry")
 		block()
 		judge("block: expiration height")
-		claim(119) // after the refund: must be rejected
+		claim(259) // after the refund: must be rejected
+		// ... and so must a claim of any contract the chain still reports open past its expiration height
+		for k, c := range cs {
+			idb, _ := hex.DecodeString(c.id)
+			if h, found := e.HTLC.GetHTLC(s.Ctx, idb); found && h.State == htlctypes.Open && k != 259 {
+				claim(k)
+				break
+			}
+		}
 		block()
 		judge("block: expiration height + 1")
 		block()
